@@ -1,5 +1,5 @@
 ---- MODULE MC_CliFs ----
 EXTENDS CliFs, Json
-Emit == exit # "pending" => PrintT(<<"VEC", ToJson([mode |-> mode, force |-> force, sidecarFlag |-> sidecarFlag, sameAsInput |-> sameAsInput,
+Emit == exit # "pending" => PrintT(<<"VEC", ToJson([mode |-> mode, force |-> force, sidecarFlag |-> sidecarFlag, sameAsInput |-> sameAsInput, remote |-> remote,
           output |-> output, sidecar |-> sidecar, exit |-> exit, outputAfter |-> outputAfter, sidecarAfter |-> sidecarAfter, inputAfter |-> inputAfter])>>)
 ====
